@@ -383,6 +383,7 @@ WiringPortRef wire_node(Scope &sc, const JV &st, std::vector<WiringPortRef> ins)
             if (cfg->n_in > 0) { auto in = v.input(t); auto b = in.as_bundle(); auto c = b[0]; if (c.valid() && c.value().is_list()) n = (std::int64_t)c.value().as_list().size(); }
             extra("seq"); e += std::to_string(g_ctx->seq.fetch_add(1) + 1);
             g_ctx->delivered.fetch_add(n);
+            g_ctx->last_value.store(first_val);
         }
         bool thrown = false;
         if (cfg->thr.is_obj()) {
